@@ -177,6 +177,13 @@ def graphs():
         "reg3_10a": nx.random_regular_graph(3, 10, seed=1), "reg3_10b": nx.random_regular_graph(3, 10, seed=2),
         "tree_r2h3": nx.balanced_tree(2, 3),
     }
+    # networks with isolated (degree-0) nodes: they can never be infected and stay susceptible for ever
+    g = nx.path_graph(6)
+    g.add_nodes_from([6, 7])
+    out["path6+2isolated"] = g
+    g = nx.petersen_graph()
+    g.add_nodes_from([10, 11, 12])
+    out["petersen+3isolated"] = g
     return out
 
 
